@@ -194,6 +194,31 @@ pub fn present(sd_jwt: &str, fmt: Fmt, selection: &Map<String, Value>, kb: Optio
     }
 }
 
+/// An earlier `create_presentation` call made on the same holder instance.
+#[derive(Clone, Debug, PartialEq, Serialize, Deserialize)]
+pub struct EarlierCall {
+    #[serde(with = "crate::exact::map")]
+    pub selection: Map<String, Value>,
+    pub kb: Option<KbArgs>,
+}
+
+/// Like `present`, but the holder instance first serves `earlier` (results ignored; a panic there is
+/// reported).
+pub fn present_after(sd_jwt: &str, fmt: Fmt, earlier: &[EarlierCall], selection: &Map<String, Value>, kb: Option<&KbArgs>) -> Out<String> {
+    match new_holder(sd_jwt, fmt) {
+        Out::Ok(mut h) => {
+            for e in earlier {
+                if let Out::Panic(p) = present_with(&mut h, &e.selection, e.kb.as_ref()) {
+                    return Out::Panic(format!("create_presentation (earlier call on the same holder): {}", p));
+                }
+            }
+            present_with(&mut h, selection, kb)
+        }
+        Out::Err(e) => Out::Err(format!("SDJWTHolder::new: {}", e)),
+        Out::Panic(p) => Out::Panic(format!("SDJWTHolder::new: {}", p)),
+    }
+}
+
 /// What the caller's resolver returns.
 #[derive(Clone, Debug, PartialEq, Serialize, Deserialize)]
 pub enum Resolver {
